@@ -45,14 +45,20 @@ inline std::string show(const std::string& s) {
 }
 inline std::string showAlpha(const std::vector<std::string>& a) { std::string r; for (auto& w : a) { if (!r.empty()) r += " "; r += show(w); } return r; }
 
-// ---- CPU-time watchdog: a case that burns more user CPU time than the limit ends the worker with the engine's "hang" exit code, so
-//      the supervisor records hang|<site> (after re-running the case alone, where the same watchdog fires again). Insensitive to machine load.
-inline void vtHandler(int) { _exit(99); }
+// ---- CPU-time watchdog: a case that burns more CPU time (user+system) than the limit is taken as non-terminating. The worker writes a
+//      line to stderr and ends with exit code 97, which the supervisor records as crash|<site>|exit97 for exactly that case (workers are
+//      respawned in parallel; the engine's own wall-clock alarm with its serial re-run stays armed as a backstop). CPU time is insensitive
+//      to machine load, so no re-run is needed.
+inline void cpuHandler(int) {
+  const char m[] = "\nWATCHDOG: case exceeded its CPU-time limit (taken as non-termination)\n";
+  if (write(2, m, sizeof m - 1)) {}
+  _exit(97);
+}
 inline void armCpu(double s) {
-  static bool inst = false; if (!inst) { signal(SIGVTALRM, vtHandler); inst = true; }
+  static bool inst = false; if (!inst) { signal(SIGPROF, cpuHandler); inst = true; }
   struct itimerval it; memset(&it, 0, sizeof it);
   it.it_value.tv_sec = (long)s; it.it_value.tv_usec = (long)((s - (double)(long)s) * 1e6);
-  setitimer(ITIMER_VIRTUAL, &it, nullptr);
+  setitimer(ITIMER_PROF, &it, nullptr);
 }
 
 // ---- consumers: read every byte of what the library returned (so a corrupted result is seen by the sanitizer at this site) ----
